@@ -95,6 +95,20 @@ class LabelKeys:
         return f"labels({self.value!r}{' cast to ' + '/'.join(self.casts) if self.casts else ''})"
 
 
+class _SearchPos:
+    """np.searchsorted(keys, arr): per element the position of the first key >= the element"""
+
+    def __init__(self, keys, arr):
+        self.keys, self.arr = keys, arr
+
+
+class _Taken:
+    """keys.take(searchsorted(keys, arr), mode='clip')"""
+
+    def __init__(self, keys, arr):
+        self.keys, self.arr = keys, arr
+
+
 class ALut:
     """A lookup table over all values of an input's dtype: value -> entry, 0 where nothing was stored.
     keys: LabelKeys stored so far; entry: 'same' (the key itself) or 1 (binary)."""
@@ -231,6 +245,8 @@ class ArrInterp(ResultInterp):
                 return a if wide else LabelKeys(a.value, a.casts + (tag,))
             if name in ("copy", "ravel", "flatten", "tolist"):
                 return a
+            if name == "take" and args and isinstance(args[0], _SearchPos) and args[0].keys is a and kwargs.get("mode") == "clip" and not (set(kwargs) - {"mode"}):
+                return _Taken(a, args[0].arr)  # the label at the position the binary search found (last label if past the end)
             if name == "reshape" and (args == [-1] or args == [(-1,)]):
                 # a 1-D view: a scalar label becomes the one-element vector
                 return a if isinstance(a.value, (list, tuple)) else LabelKeys([a.value], a.casts, a.fits)
@@ -397,6 +413,11 @@ class ArrInterp(ResultInterp):
             if k is ast.Eq:
                 return AMask(l, "eq", r)
             return AMask(l, "other", f"{type(op).__name__} {r}")
+        if isinstance(op, ast.Eq) and ((isinstance(l, _Taken) and r is l.arr) or (isinstance(r, _Taken) and l is r.arr)):
+            t_ = l if isinstance(l, _Taken) else r
+            if getattr(t_.keys, "sorted_unique", False):
+                return AMask(t_.arr, "isin", t_.keys.plain())  # binary search in sorted labels, found label == element  <=>  the element is one of the labels
+            return AMask(t_.arr, "other", "binary search (searchsorted) in labels that are not sorted: elements are compared with the wrong label")
         if isinstance(l, AArr):
             if isinstance(op, ast.Eq):
                 return AMask(l, "eq", r.plain() if isinstance(r, LabelKeys) else r)
@@ -576,11 +597,16 @@ class ArrInterp(ResultInterp):
                 tgt.values_changed()
                 return tgt
             raise Undecided("np.take into an array that is not a fresh buffer of the input's shape and dtype")
-        if name == "numpy.unique" and len(args) == 1 and not kwargs and isinstance(args[0], LabelKeys):
-            k = args[0]
-            if isinstance(k.value, (list, tuple)) and all(isinstance(v, int) and not isinstance(v, bool) for v in k.value) and not k.casts:
-                return LabelKeys(sorted(set(k.value)))
+        if name == "numpy.unique" and len(args) == 1 and not kwargs and isinstance(args[0], (LabelKeys, list, tuple, int)) and not isinstance(args[0], bool):
+            k = args[0] if isinstance(args[0], LabelKeys) else LabelKeys(list(args[0]) if isinstance(args[0], (list, tuple)) else [args[0]])
+            vals = list(k.value) if isinstance(k.value, (list, tuple)) else [k.value]
+            if all(isinstance(v, int) and not isinstance(v, bool) for v in vals) and not k.casts:
+                out = LabelKeys(sorted(set(vals)))
+                out.sorted_unique = True
+                return out
             return Unknown("np.unique of symbolic / cast labels")
+        if name == "numpy.searchsorted" and len(args) == 2 and isinstance(args[0], LabelKeys) and isinstance(args[1], AArr) and not (set(kwargs) - {"side"}) and kwargs.get("side", "left") == "left":
+            return _SearchPos(args[0], args[1])
         if name in ("numpy.zeros",) and args and isinstance(args[0], Sym) and args[0].name.endswith(".shape") and self._dtype(kwargs.get("dtype", args[1] if len(args) > 1 else None)) == "bool" and not (set(kwargs) - {"dtype", "order"}):
             m = AMask(None, "isin", [])  # all False: the union of no labels
             m.shape_of = args[0].name[: -len(".shape")]
